@@ -100,6 +100,7 @@ fn opname(op: Option<&MemOp>) -> &'static str {
         Some(MemOp::Resize { .. }) => "Resize",
         Some(MemOp::EvictAll) => "EvictAll",
         Some(MemOp::Flush) => "Flush",
+        Some(MemOp::FetchReady { .. }) | Some(MemOp::FetchPending { .. }) | Some(MemOp::FetchFail { .. }) => "Fetch",
     }
 }
 
